@@ -103,7 +103,9 @@ def gen_history(rnd, consts, tier, maxlen):
         else:
             # another part of the library at work on a signal whose default action does not end the process (ignore / stop kinds):
             # the registry and the library's handler must not notice
-            cands = [x for x in sigs if x in ignored or x in (20, 21, 22)]
+            # (a stop-kind signal really stops the child and the probe's parent continues it with SIGCONT - a delivery of SIGCONT the
+            # history does not contain: only when SIGCONT is none of the history's signals)
+            cands = [x for x in sigs if x in ignored or (x in (20, 21, 22) and 18 not in sigs)]
             if cands:
                 x = rnd.choice(cands)
                 h += [7, x, 6, x]
